@@ -760,6 +760,7 @@ func runC12(c *vk.Ctx) {
 
 	runC12Int(c)
 	runC12Dec(c)
+	runC12Concurrent(c, ops, uops)
 }
 
 func renderDec(i *big.Int, prec int) string {
@@ -931,5 +932,53 @@ func runC12Dec(c *vk.Ctx) {
 			c.Violate("C12.operand_mutated", sig, "%s changed an operand", op.name)
 		}
 		c.Class("%s|%s%s", op.name, sgn(ai), sgn(bi))
+	})
+}
+
+
+// runC12Concurrent: the decimal library is used from query goroutines while blocks execute, so calls that share
+// no operand must not influence each other. Batches of operations are evaluated sequentially (the values the other
+// parts of this monitor compare with exact arithmetic) and then by 8 goroutines at once; every answer must be the same.
+func runC12Concurrent(c *vk.Ctx, ops []bdBinOp, uops []bdUnOp) {
+	c.Cases("concurrent-callers", c.N(24, 960), func(i int, r *vk.Rng) {
+		var calls []vk.Call
+		for k := 0; k < 600; k++ {
+			if r.Intn(4) == 0 {
+				u := uops[r.Intn(len(uops))]
+				ai := genScaled(r, 36, 900)
+				calls = append(calls, vk.Call{Name: u.name, Fn: func() string {
+					res, p, msg := callBD(func() *big.Int { return u.f(mkBD(new(big.Int).Set(ai))) })
+					return fmt.Sprint(res, p, msg)
+				}})
+				continue
+			}
+			op := ops[r.Intn(len(ops))]
+			ai := genScaled(r, 36, 700)
+			var mk func() any
+			switch op.kind {
+			case "bd":
+				bi := genScaled(r, 36, 400)
+				mk = func() any { return mkBD(new(big.Int).Set(bi)) }
+			case "dec":
+				bi := genScaled(r, 18, 200)
+				mk = func() any { return mkDec(new(big.Int).Set(bi)) }
+			case "int":
+				bi := genScaled(r, 0, 200)
+				mk = func() any { return osmomath.NewBigIntFromBigInt(new(big.Int).Set(bi)) }
+			default:
+				v := int64(r.U64()) >> uint(r.Intn(63))
+				mk = func() any { return v }
+			}
+			calls = append(calls, vk.Call{Name: op.name, Fn: func() string {
+				res, p, msg := callBD(func() *big.Int { return bdI(op.f(mkBD(new(big.Int).Set(ai)), mk())) })
+				return fmt.Sprint(res, p, msg)
+			}})
+		}
+		c.Eval(int64(len(calls)) * 4)
+		if k, alone, together := vk.ConcurrentSame(calls, 8, 3); k >= 0 {
+			c.Violate("C12.concurrent_callers", map[string]any{"method": calls[k].Name}, "%s returned %s when called alone and %s when 8 goroutines were inside the decimal library at once (no operand is shared between the calls)", calls[k].Name, alone, together)
+			return
+		}
+		c.Class("concurrent|batch-of-600|8-goroutines")
 	})
 }
